@@ -283,7 +283,7 @@ theorem refines_step (g : Ghost) (s : State) (op : Op) (h : Refines g s) :
     split
     · exact key _ _ (refines_flush g s h)
     · exact key _ _ h
-  | putConf en ivl ign =>
+  | putConf en an ivl ign =>
     simp only [gStep, step, putConf]
     split
     · exact h
